@@ -327,6 +327,9 @@ func main() {
 		return v
 	}
 	mimcVal := func(ctr int) []byte {
+		if ctr%5 == 1 { // a short value (MiMC pads each Write shorter than a block on its own)
+			return []byte{byte(1 + ctr%200), byte(ctr % 7)}[:1+ctr%2]
+		}
 		var e fr.Element
 		e.SetUint64(uint64(1000 + ctr))
 		b := e.Bytes()
@@ -339,10 +342,19 @@ func main() {
 		return b[:]
 	}
 	mimcBad := func(ctr int) []byte {
-		if ctr%2 == 0 {
+		switch ctr % 3 {
+		case 0:
 			return bytes.Repeat([]byte{0xff}, 32) // >= r
+		case 1: // a canonical block followed by one that is not: refused as a whole
+			var e fr.Element
+			e.SetUint64(uint64(5 + ctr))
+			b := e.Bytes()
+			return append(b[:], bytes.Repeat([]byte{0xff}, 32)...)
 		}
-		return append(mimcVal(ctr), 0x01) // not a whole number of blocks
+		var e fr.Element
+		e.SetUint64(uint64(9 + ctr))
+		b := e.Bytes()
+		return append(b[:], 0x01) // not a whole number of blocks
 	}
 	// MiMC configured for little-endian input: every block reversed (values that are canonical in that order); the
 	// transcript resets the hasher before every challenge, and a reset keeps the configuration
@@ -377,6 +389,9 @@ func main() {
 	} {
 		bs := o.newH().BlockSize()
 		val := func(ctr int) []byte {
+			if ctr%5 == 1 {
+				return []byte{byte(1 + ctr%200), byte(ctr % 7)}[:1+ctr%2]
+			}
 			b := make([]byte, bs)
 			b[bs-2], b[bs-1] = byte((1000+ctr)>>8), byte(1000+ctr)
 			if ctr%3 == 0 {
@@ -387,10 +402,15 @@ func main() {
 			return b
 		}
 		bad := func(ctr int) []byte {
-			if ctr%2 == 0 {
+			good := make([]byte, bs)
+			good[bs-1] = byte(5 + ctr%100)
+			switch ctr % 3 {
+			case 0:
 				return bytes.Repeat([]byte{0xff}, bs)
+			case 1:
+				return append(good, bytes.Repeat([]byte{0xff}, bs)...)
 			}
-			return append(val(ctr), 0x01)
+			return append(good, 0x01)
 		}
 		cfgs = append(cfgs, hcfg{o.label, o.newH, []string{"a", "bb", "gamma", "d"}, val, bad})
 		maxLen[o.label] = c.Pick(3, 4)
